@@ -187,7 +187,7 @@ impl ConverterBuilder {
         let best = enum_map! {
             q =>  {
                 if let Some(best_units) = &self.best_units[q] {
-                    BestConversionsStore::new(best_units, &self.unit_index, &self.all_units)?
+                    BestConversionsStore::new(best_units, q, &self.unit_index, &self.all_units)?
                 } else {
                     return Err(ConverterBuilderError::EmptyBest { reason: "no best units given", quantity: q })
                 }
@@ -229,16 +229,17 @@ impl ConverterBuilder {
 impl BestConversionsStore {
     fn new(
         best_units: &BestUnits,
+        quantity: PhysicalQuantity,
         unit_index: &UnitIndex,
         all_units: &[UnitBuilder],
     ) -> Result<Self, ConverterBuilderError> {
         let v = match best_units {
             BestUnits::Unified(names) => {
-                Self::Unified(BestConversions::new(names, unit_index, all_units)?)
+                Self::Unified(BestConversions::new(names, quantity, unit_index, all_units)?)
             }
             BestUnits::BySystem { metric, imperial } => Self::BySystem {
-                metric: BestConversions::new(metric, unit_index, all_units)?,
-                imperial: BestConversions::new(imperial, unit_index, all_units)?,
+                metric: BestConversions::new(metric, quantity, unit_index, all_units)?,
+                imperial: BestConversions::new(imperial, quantity, unit_index, all_units)?,
             },
         };
         Ok(v)
@@ -247,14 +248,27 @@ impl BestConversionsStore {
 
 impl BestConversions {
     fn new(
-        units: &[String],
+        names: &[String],
+        quantity: PhysicalQuantity,
         unit_index: &UnitIndex,
         all_units: &[UnitBuilder],
     ) -> Result<Self, ConverterBuilderError> {
-        let mut units = units
+        let mut units = names
             .iter()
             .map(|n| unit_index.get_unit_id(n))
             .collect::<Result<Vec<_>, _>>()?;
+
+        // a unit of another quantity can't be converted to the rest of the list
+        for (name, &id) in names.iter().zip(&units) {
+            let found = all_units[id].physical_quantity;
+            if found != quantity {
+                return Err(ConverterBuilderError::BestUnitQuantity {
+                    unit: name.clone(),
+                    quantity,
+                    found,
+                });
+            }
+        }
 
         units.sort_by(|a, b| {
             let a = &all_units[*a];
@@ -562,6 +576,13 @@ pub enum ConverterBuilderError {
     EmptyBest {
         reason: &'static str,
         quantity: PhysicalQuantity,
+    },
+
+    #[error("Best unit '{unit}' for '{quantity}' is a '{found}' unit")]
+    BestUnitQuantity {
+        unit: String,
+        quantity: PhysicalQuantity,
+        found: PhysicalQuantity,
     },
 
     #[error("No SI prefixes found when expandind SI on a unit")]
